@@ -185,3 +185,19 @@ Example C07_example_int64_guard :
   let s := run init [OpBuy ex_t0 big; OpPost 2 ex_t0 50 (ex_post 1 (2 ^ 62) 1 0)] in
   post_file s 2 ex_t0 50 (ex_post 2 (2 ^ 62 + 5) 1 0) = (s, PlFail) /\ wrap64 (2 ^ 62 + (2 ^ 62 + 5)) < 0.
 Proof. vm_compute. split; reflexivity. Qed.
+
+(* ---------------------------------------------------------------------------------------------
+   Tie to the code by translation + proof: the functions below are GENERATED on every run from /repo's
+   current Go source (translator/gen_gofuncs.go -> Gen/GoWindows.v); the theorems say that the hand-written model the
+   property theorems above are about computes what the generated function computes, for all arguments. *)
+From Coq Require Import String.
+From JK Require Import Base.GoSem Gen.GoWindows Proofs.GoTieWindows.
+
+(* removeFileIfDeserved (the reward block's drop of a prover-less file past its first window) removes exactly the
+   files Model/Plan.v's [dropped] names -- int64 wrap of Start+ProofInterval included, no range assumed *)
+Theorem C07_code_tie_chain_drop :
+  forall h kf,
+    gen_removeFileIfDeserved (k_start (fst kf)) (f_pi (snd kf)) h (f_provers (snd kf))
+    = GVal (if dropped h kf then [Ev "remove-file"%string []] else []).
+Proof. exact plan_dropped. Qed.
+Print Assumptions C07_code_tie_chain_drop.
